@@ -36,6 +36,14 @@ def check(run):
             run.violation(ve.coarse_sig(o), {"kind": "verify_signable", "fine_signature": ve.sig_of(o), **o})
         else:
             run.note_drift("outside Allowed but owned by another property: " + ve.coarse_sig(o))
+    # 3b. every kind of value given as threshold (positive integer, integer + fraction, zero, negative, string, null, list)
+    run.mutant("Verify", "Verify_mut_thr_truncated.cfg", expect="MalformedNeverAccepted", timeout=600)
+    rt = run.tlc("Verify", "Verify_emit_thr.cfg", raw_cases=True, expect_cases=True, timeout=3000)
+    for o in ve.replay(run, rt, opts={"strip": False}):
+        if owns(o):
+            run.violation(ve.coarse_sig(o) + f" threshold-kind={o['case'].get('tk')}", {"kind": "verify_signable", "fine_signature": ve.sig_of(o), **o})
+        else:
+            run.note_drift("outside Allowed but owned by another property: " + ve.coarse_sig(o))
     # 4. code -> spec traces: random adversarial envelopes judged by TLC
     traces_verify.random_traces(run, n=2000 if quick else 50000, owner=owns)
     traces_verify.big_envelopes(run, n=12 if quick else 200, owner=owns)
